@@ -15,7 +15,8 @@ Air == [A1 |-> [country |-> "US", lat |-> 10, lon |-> 10], A2 |-> [country |-> "
 Continent == [US |-> "NA", CA |-> "NA", FR |-> "EU"]
 Boxes == [B1 |-> [latlo |-> 5, lathi |-> 15, lonlo |-> 5, lonhi |-> 25],      \* A1, A2
           B2 |-> [latlo |-> 25, lathi |-> 35, lonlo |-> 5, lonhi |-> 15],     \* A3
-          B3 |-> [latlo |-> -60, lathi |-> 60, lonlo |-> 0, lonhi |-> 60]]    \* all
+          B3 |-> [latlo |-> -60, lathi |-> 60, lonlo |-> 0, lonhi |-> 180]]   \* all: the eastern half of the map, up to its edge
+\* (longitude 180 is the eastern edge of the map, not the western one: a box that ends there is not empty)
 \* (no flight at all departs on days 5, 7 and 11: "every n-th day" counts days from the start date given, not
 \* from the first day that has a departure)
 Flights == << [o |-> "A1", d |-> "A2", dist |-> 500, seats |-> 100, svc |-> "J", acft |-> "738", days |-> (0..13) \ {5, 7, 11}, min |-> 480],
